@@ -42,6 +42,7 @@ import (
 	"github.com/AliceO2Group/Control/common/event/topic"
 	pb "github.com/AliceO2Group/Control/common/protos"
 	"github.com/AliceO2Group/Control/core/environment"
+	"github.com/AliceO2Group/Control/core/task"
 	"github.com/AliceO2Group/Control/core/the"
 
 	"verif/harness/envlab"
@@ -68,8 +69,12 @@ type Step struct {
 }
 
 type C10Case struct {
-	Prop  string `json:"prop"`
-	Idx   int64  `json:"idx"`
+	Prop string `json:"prop"`
+	Idx  int64  `json:"idx"`
+	// Real: START_ACTIVITY / STOP_ACTIVITY (and plain GO_ERROR) are the REAL transitions of the core
+	// (environment.NewStartActivityTransition etc.); the lab plays the task manager and answers their
+	// task command with success or with the scripted "tasks failed to transition".
+	Real  bool   `json:"real,omitempty"`
 	Steps []Step `json:"steps"`
 }
 
@@ -81,6 +86,9 @@ var hookMomentKinds = []string{"before", "leave", "enter", "after"}
 // (Sm.SetState, as core/server.go:ControlEnvironment does when GO_ERROR cannot complete) after a
 // GO_ERROR that was cancelled while RUNNING, and judge it as "the run ended by error".
 var forcedError = os.Getenv("VERIF_C10_FORCED_ERROR") == "1"
+
+// realTransitions (VERIF_C10_REAL=0 switches it off): 3 walks out of 5 use the real transitions.
+var realTransitions = os.Getenv("VERIF_C10_REAL") != "0"
 
 func momentsOfStep(ev, src, dst string) map[string]string {
 	return map[string]string{"before": "before_" + ev, "leave": "leave_" + src, "enter": "enter_" + dst, "after": "after_" + ev}
@@ -111,7 +119,7 @@ func failingStep(r *rand.Rand, op, src string) Step {
 	for i := 0; i < n; i++ {
 		p := r.Intn(100)
 		switch {
-		case p < 88:
+		case p < 80:
 			k := hookMomentKinds[r.Intn(4)]
 			s.Fail = append(s.Fail, envlab.Expr(ms[k], probeWeights[r.Intn(3)]))
 			if k == "before" || k == "leave" {
@@ -158,7 +166,7 @@ func illegalStep(r *rand.Rand, src string) Step {
 
 func genC10(c *vlib.Ctx, idx int64) C10Case {
 	r := c.SubRand(idx)
-	cs := C10Case{Prop: "C10", Idx: idx}
+	cs := C10Case{Prop: "C10", Idx: idx, Real: realTransitions && idx%5 < 3}
 	cs.Steps = append(cs.Steps, plainStep("DEPLOY", "STANDBY"), plainStep("CONFIGURE", "DEPLOYED"))
 	state := "CONFIGURED"
 	n := 1 + r.Intn(8)
@@ -273,6 +281,7 @@ func c10Fingerprint(cs C10Case) string {
 	for _, s := range cs.Steps {
 		fmt.Fprintf(&sb, "%s/%v/%v/%v;", s.Op, s.Force, s.Fail, s.FailBody)
 	}
+	fmt.Fprintf(&sb, "real=%v", cs.Real)
 	return sb.String()
 }
 
@@ -316,6 +325,77 @@ type c10Script struct {
 	mu   sync.Mutex
 	fail map[string]bool
 	slow map[string]bool
+	body func() error // what the task manager does with the task command of a REAL transition (nil: success)
+}
+
+func (s *c10Script) setBody(f func() error) { s.mu.Lock(); s.body = f; s.mu.Unlock() }
+
+// useReal: which steps of a Real walk run the core's own transition. GO_ERROR's real transition sends
+// no task command, so a GO_ERROR that is to fail in its body or to wait at a gate stays a stand-in.
+func useReal(cs *C10Case, st *Step) bool {
+	switch st.Op {
+	case "START_ACTIVITY", "STOP_ACTIVITY":
+		return cs.Real
+	case "GO_ERROR":
+		return cs.Real && !st.FailBody && !st.Race
+	}
+	return false
+}
+
+// makeTransition builds the transition of a step: the real one (its task command is handed to `body`
+// by the lab's OnTaskCommand) or the stand-in whose body is `body`. Both write body_enter / body_exit.
+func makeTransition(lab *envlab.Lab, sc *c10Script, real bool, op string, body func() error) environment.Transition {
+	if real {
+		sc.setBody(body)
+		tm := lab.W.In.Taskman
+		switch op {
+		case "START_ACTIVITY":
+			return environment.NewStartActivityTransition(tm)
+		case "STOP_ACTIVITY":
+			return environment.NewStopActivityTransition(tm)
+		default:
+			return environment.NewGoErrorTransition(tm)
+		}
+	}
+	return environment.VerifNewTransition(op, func(*environment.Environment) error {
+		lab.Add(envlab.Record{Kind: envlab.KBodyEnter, Event: op})
+		var berr error
+		if body != nil {
+			berr = body()
+		}
+		r := envlab.Record{Kind: envlab.KBodyExit, Event: op}
+		if berr != nil {
+			r.Err = berr.Error()
+		}
+		lab.Add(r)
+		return berr
+	})
+}
+
+// taskCommand is the lab's OnTaskCommand: the task manager's side of a real transition.
+func (s *c10Script) taskCommand(lab *envlab.Lab) func(*task.TaskmanMessage) error {
+	return func(m *task.TaskmanMessage) error {
+		args := map[string]string{}
+		for _, k := range []string{"runNumber", vSOSOR, vSOEOR} {
+			if v, ok := m.GetArguments()[k]; ok {
+				args[k] = v
+			}
+		}
+		lab.Add(envlab.Record{Kind: envlab.KBodyEnter, Event: m.GetEvent(), Msg: "task command of the real transition", Snap: args})
+		s.mu.Lock()
+		f := s.body
+		s.mu.Unlock()
+		var berr error
+		if f != nil {
+			berr = f()
+		}
+		r := envlab.Record{Kind: envlab.KBodyExit, Event: m.GetEvent()}
+		if berr != nil {
+			r.Err = berr.Error()
+		}
+		lab.Add(r)
+		return berr
+	}
 }
 
 func (s *c10Script) set(st *Step) {
@@ -348,6 +428,7 @@ func execC10(w *envlab.World, cs C10Case) (*c10Outcome, error) {
 	}
 	sc := &c10Script{}
 	sc.set(nil)
+	lab.OnTaskCommand = sc.taskCommand(lab)
 	lab.OnProbe = func(pi envlab.ProbeInfo) envlab.ProbeAction {
 		act := envlab.ProbeAction{Snap: snapOf(pi.VarStack)}
 		sc.mu.Lock()
@@ -378,7 +459,7 @@ func execC10(w *envlab.World, cs C10Case) (*c10Outcome, error) {
 		var derr error
 		if st.Race {
 			var an string
-			res.State, derr, an = raceTeardown(lab, st)
+			res.State, derr, an = raceTeardown(lab, st, sc, useReal(&cs, st))
 			if an != "" {
 				out.Anomalies++
 				lab.Add(envlab.Record{Kind: envlab.KAnomaly, Msg: an})
@@ -396,7 +477,8 @@ func execC10(w *envlab.World, cs C10Case) (*c10Outcome, error) {
 			if st.FailBody {
 				body = func() error { return errors.New("verif: tasks failed to transition (scripted)") }
 			}
-			res.State, derr = seqTransition(lab, st.Op, body)
+			res.State, derr = seqTransitionT(lab, st.Op, makeTransition(lab, sc, useReal(&cs, st), st.Op, body))
+			sc.setBody(nil)
 		}
 		if derr != nil {
 			res.Err = derr.Error()
@@ -439,31 +521,25 @@ const (
 // logged "attempt delayed" (it is parked on the transition mutex) the gate opens. The trans_end /
 // teardown_begin / teardown_end records of the two overlapping calls are written afterwards by
 // normalizeC10, at the positions that the mutex defines.
-func raceTeardown(lab *envlab.Lab, st *Step) (state string, err error, anomaly string) {
+func raceTeardown(lab *envlab.Lab, st *Step, sc *c10Script, real bool) (state string, err error, anomaly string) {
 	setupDelayHook()
 	delayed := make(chan struct{}, 4)
 	delaySubs.Store(lab.ID, delayed)
 	defer delaySubs.Delete(lab.ID)
+	defer sc.setBody(nil)
 	src := lab.Env.CurrentState()
 	lab.Add(envlab.Record{Kind: kRaceBegin, Event: st.Op, Src: src, State: src})
 	entered := make(chan struct{})
 	gate := make(chan struct{})
 	transDone := make(chan error, 1)
 	tdDone := make(chan error, 1)
-	tr := environment.VerifNewTransition(st.Op, func(*environment.Environment) error {
-		lab.Add(envlab.Record{Kind: envlab.KBodyEnter, Event: st.Op})
+	tr := makeTransition(lab, sc, real, st.Op, func() error {
 		close(entered)
 		<-gate
-		var berr error
 		if st.FailBody {
-			berr = errors.New("verif: tasks failed to transition (scripted)")
+			return errors.New("verif: tasks failed to transition (scripted)")
 		}
-		r := envlab.Record{Kind: envlab.KBodyExit, Event: st.Op}
-		if berr != nil {
-			r.Err = berr.Error()
-		}
-		lab.Add(r)
-		return berr
+		return nil
 	})
 	go func() { transDone <- lab.Env.TryTransition(tr) }()
 	var terr error
@@ -899,6 +975,18 @@ func c10Total(tier string) int {
 func countC10Case(c *vlib.Ctx, cs C10Case, out *c10Outcome) {
 	c.Count("walks", 1)
 	c.Count("steps", int64(len(out.Results)))
+	if cs.Real {
+		c.Count("walks_with_real_transitions", 1)
+		for i := range out.Results {
+			s := &cs.Steps[i]
+			if useReal(&cs, s) {
+				c.Count("real_"+strings.ToLower(s.Op), 1)
+				if s.FailBody {
+					c.Count("real_"+strings.ToLower(s.Op)+"_tasks_failed", 1)
+				}
+			}
+		}
+	}
 	for i := range out.Results {
 		s := cs.Steps[i]
 		key := strings.ToLower(s.Op)
